@@ -8,6 +8,33 @@ import sys
 COQ = os.path.join(os.path.dirname(os.path.dirname(os.path.abspath(__file__))), "coq")
 
 SPECS = {
+    "C06": {
+        "title": "C06 - Beam search never reports a path that does not exist, and is exact when unpruned.",
+        "doc": "For EVERY selection oracle (the unstable argsort), score function, beam width and step budget. reach [start] k c = a walk of exactly k edges from start to c exists.\n"
+               "    The ball theorem needs an inverse map (inverse-closed generators): on non-inverse-closed graphs the statement is false (known finding F15).",
+        "imports": "Base Tensor Graph GraphProofs GraphImpl Def Paths BfsStep PathsProofs Beam BeamProofs",
+        "thms": [
+            ("C06_simple_sound_noball", "simple_sound_noball", "simple mode: success means a real walk of exactly the reported length; a returned path replays to the central state and has that length"),
+            ("C06_simple_sound_ball", "simple_sound_ball", "the same with a pre-computed BFS ball, on inverse-closed graphs"),
+            ("C06_advanced_sound", "advanced_sound", "advanced mode, any history depth: success means a real walk of exactly the reported length"),
+            ("C06_simple_noball_ge_dist", "simple_noball_ge_dist", "hence the reported length is never below the true distance"),
+            ("C06_simple_total_noball", "simple_total_noball", "no assertion can fire without a ball (the only model error is an inconsistent oracle recording)"),
+            ("C06_simple_unpruned_exact", "simple_unpruned_exact", "unpruned (beam wider than the orbit) with budget >= distance: success with exactly the shortest distance"),
+            ("C06_advanced_unpruned_exact", "advanced_unpruned_exact", "the same in advanced mode for EVERY history depth (stale ring-buffer rows only ban states at smaller distance)"),
+        ],
+    },
+    "C18": {
+        "title": "C18 - A saved BFS result loads back equal and stays usable for path queries.",
+        "doc": "Model SaveLoad.v: the HDF5 file is an abstract map from dataset names to arrays/strings; save/load use the library's key scheme.",
+        "imports": "Base SaveLoad SaveLoadProofs",
+        "thms": [
+            ("C18_load_save", "load_save", "every well-formed result (any names, central state, subset of stored layers, hashes or none, edges or none) loads back IDENTICAL"),
+            ("C18_load_save_eq", "load_save_eq", "and compares equal both ways"),
+            ("C18_strip_parse_key", "strip_parse_key", "the k.strip('layer__') trick parses the layer id back (digits are not in the stripped set)"),
+            ("C18_result_eq_sound", "result_eq_sound", "equal results agree on every field"),
+            ("C18_result_eq_distinguishes", "result_eq_distinguishes", "results differing in any scalar/list field compare unequal"),
+        ],
+    },
     "C08": {
         "title": "C08 - The explicit graph exported from a BFS equals the true Schreier graph.",
         "doc": "Statements about the BFS model with return_all_edges: L i = the true layers (distance classes); edges are pairs of HASHES, which NoColl identifies with states;\n"
